@@ -16,6 +16,11 @@ Every run yields a chronological list of time-stamped records (the same vocabula
   send:type:status   `send` was called (by a timer, a service, the harness)
   svc-start:id / svc-end:id:ok|raise   a service was called / returned or raised
   stop, obs:ids;status;tasks=n
+
+`stop` INSIDE the macrostep in flight (findings F72 - F74): profiles with the option `stopin` place the stop in the instant of an
+input, strictly inside a slow action, or in the very instant in which it ends; the runners report whether stop() found a macrostep
+in flight (`stop_in_flight`), what was armed / invoked while the status was `stopped` (`late`) and what was alive when that stop()
+returned. What is compared with the model there: `compare` / `stop_variant` (switched by the findings ledger).
 """
 from __future__ import annotations
 import asyncio, copy, heapq, json, logging, os, random, selectors, signal, subprocess, sys, itertools, collections
@@ -216,13 +221,16 @@ def mklogic(case, rec, is_async, sleeper=None, out=None):
     return lg
 
 
-def _instrument(it, rec):
-    """observation only: log every `_after_timer` (arming) and every `send` call, then do the real thing"""
+def _instrument(it, rec, late=None):
+    """observation only: log every `_after_timer` (arming) and every `send` call, then do the real thing.
+    `late`: collects what is armed / invoked while the status is `stopped` (a `stop()` that landed inside the macrostep in flight)"""
     pending = []
     orig_after = it._after_timer
 
     def after_timer(delay_sec, event, owner_id):
         pending.append((owner_id, event.type, int(round(delay_sec * 1000))))
+        if late is not None and it.status == "stopped":
+            late.append(["timer", owner_id, event.type])
         return orig_after(delay_sec, event, owner_id=owner_id)
     it._after_timer = after_timer
     orig_sched = it._schedule_state_tasks
@@ -241,6 +249,8 @@ def _instrument(it, rec):
 
         def inv(invocation, service, owner_id):
             flush()
+            if late is not None and it.status == "stopped":
+                late.append(["service", owner_id, invocation.id])
             return orig_inv(invocation, service, owner_id=owner_id)
         it._invoke_service = inv
         try:
@@ -266,7 +276,8 @@ async def _run_async(case, out):
     machine = create_machine(copy.deepcopy(case["machine"]), logic=mklogic(case, rec, True, out=out))
     it = Interpreter(machine)
     it.use(Plugin(rec))
-    _instrument(it, rec)
+    out["late"] = []                              # armed / invoked on a stopped interpreter
+    _instrument(it, rec, out["late"])
     orig_send = it.send
 
     async def send(ev, **kw):
@@ -286,6 +297,27 @@ async def _run_async(case, out):
 
     pending_stops = []
 
+    def own_tasks():
+        # the interpreter's own tasks that are alive, tracked by its task manager or not (`cancel_all` forgets, with
+        # `_tasks_by_owner.clear()`, whatever was created while it awaited the cancellations)
+        me = asyncio.current_task(loop)
+        return [t for t in asyncio.all_tasks(loop) if t is not me and not t.done() and t not in pending_stops
+                and getattr(t.get_coro(), "__qualname__", "").startswith("Interpreter.") and t is not it._event_loop_task]
+
+    async def stop_op():
+        # an agenda `stop`: was a macrostep in flight when stop() set the status? what is alive when it returns?
+        # (the `stop` record is written HERE, when stop() is really called — the first step of this task —, not when the
+        #  task is created: an input of the same instant has woken the run loop before, and its macrostep comes first)
+        first = it.status not in ("uninitialized", "stopped")
+        if first:
+            rec("stop")
+            out["stop_in_flight"] = bool(it._processing) or bool(out.get("starting"))
+        await it.stop()
+        if first:
+            out["stop_returned"] = [loop.ms, len(log)]
+            out["alive_at_stop_return"] = len(own_tasks())
+            out["late_at_stop_return"] = len(out["late"])
+
     def do_op(op):
         # runs as a loop callback at the op's time (all ops are scheduled before the interpreter starts,
         # so at equal deadlines an external input goes first)
@@ -296,19 +328,19 @@ async def _run_async(case, out):
             except StopIteration:
                 pass
         elif op[1] == "stop":
-            if it.status not in ("uninitialized", "stopped"):
-                rec("stop")
-            pending_stops.append(loop.create_task(it.stop()))
+            pending_stops.append(loop.create_task(stop_op()))
         elif op[1] == "obs":
             obs()
     for op in case["agenda"]:
         loop.call_at(op[0] / 1000.0, do_op, op)
     fin = loop.create_future()
     loop.fin, loop.fin_ms = fin, int(case["horizon"])     # resolved by the loop when the horizon's instant is over
+    out["starting"] = True                      # start() has not returned: the initial entry is a macrostep in flight, too
     try:
         await it.start()
     except XStateMachineError as x:
         out["start_error"] = type(x).__name__
+    out["starting"] = False
     await fin
     out["C"] = sorted(n.id for n in it._active_state_nodes)
     out["S"] = it.status
@@ -324,6 +356,8 @@ async def _run_async(case, out):
     await asyncio.sleep(0)
     out["alive_after_stop"] = _tasks_alive_async(it) + sum(
         1 for t in asyncio.all_tasks(loop) if t is not asyncio.current_task() and not t.done())
+    # ... and after an agenda `stop`: what was alive when that stop() returned + what was created after it had returned
+    out["alive_after_stop"] += out.get("alive_at_stop_return", 0) + (len(out["late"]) - out.get("late_at_stop_return", len(out["late"])))
 
 
 def run_async(case):
@@ -557,7 +591,8 @@ def run_sync(case):
                                  logic=mklogic(case, rec, False, sleeper=lambda ms: sched.park(None, ms), out=out))
         it = SyncInterpreter(machine)
         it.use(Plugin(rec))
-        _instrument(it, rec)
+        out["late"] = []
+        _instrument(it, rec, out["late"])
         orig_send = it.send
 
         def send(ev, **kw):
@@ -586,9 +621,15 @@ def run_sync(case):
                 if op[1] == "send":
                     send(op[2])
                 elif op[1] == "stop":
-                    if it.status not in ("uninitialized", "stopped"):
+                    first = it.status not in ("uninitialized", "stopped")
+                    if first:
                         rec("stop")
+                        out["stop_in_flight"] = bool(it._is_processing)
                     it.stop()
+                    if first:
+                        out["stop_returned"] = [sched.ms, len(log)]
+                        out["alive_at_stop_return"] = alive()
+                        out["late_at_stop_return"] = len(out["late"])
                 elif op[1] == "obs":
                     ids = sorted(n.id for n in it._active_state_nodes)
                     rec("obs:" + ",".join(ids) + ";" + it.status + ";tasks=" + str(alive()))
@@ -617,6 +658,8 @@ def run_sync(case):
         # ends is not a pending timer)
         out["alive_after_stop"] = sum(1 for t in sched.threads if t.is_alive() and (t.name or "").startswith("after-")
                                       and t.blocked is not None and t.blocked[0] is not None and not t.blocked[0].flag)
+        # ... and after an agenda `stop`: timer threads waiting when that stop() returned + timers armed after it had returned
+        out["alive_after_stop"] += out.get("alive_at_stop_return", 0) + sum(1 for x in out["late"][out.get("late_at_stop_return", len(out["late"])):] if x[0] == "timer")
     finally:
         sched.dead = True
         for vt in sched.threads:             # release whatever is still parked so the real threads end
@@ -731,6 +774,71 @@ def diff_run(iout, mout, cut=None):
     return None
 
 
+def diff_to_stop(iout, mout):
+    """both logs up to and including their first `stop` record (None: they agree that far)"""
+    a, b = canon_log(iout["log"]), canon_log(mout["log"])
+    ia = next((k for k, (_t, r) in enumerate(a) if r == "stop"), None)
+    ib = next((k for k, (_t, r) in enumerate(b) if r == "stop"), None)
+    if ia is None or ib is None:
+        return {"at": "stop", "impl": ia, "model": ib} if ia != ib else None
+    a, b = a[:ia + 1], b[:ib + 1]
+    for k in range(min(len(a), len(b))):
+        if a[k] != b[k]:
+            return {"at": k, "impl": a[max(0, k - 2):k + 3], "model": b[max(0, k - 2):k + 3], "upto": "stop"}
+    if len(a) != len(b):
+        k = min(len(a), len(b))
+        return {"at": k, "impl": a[k:k + 4], "model": b[k:k + 4], "len": [len(a), len(b)], "upto": "stop"}
+    return None
+
+
+def stop_variant():
+    """what the REST of a macrostep does when stop() lands inside it — the runtime model follows the code as the findings
+    ledger describes it: while a finding with the classifier `stop-inside-macrostep-rest-runs` is OPEN the code lets the rest of
+    the macrostep run on the stopped interpreter, and so does the model (`extQ .stop` inside `window`, then `enterStepRT` /
+    `scheduleRT` as for a running interpreter): "rest-runs". Once it is repaired (no such open finding) the rest of the
+    macrostep is cut short, which the model does not describe: "cut" — such runs are compared up to the stop only."""
+    return "rest-runs" if any(f.get("classifier") == "stop-inside-macrostep-rest-runs" for f in _open_findings("C08") + _open_findings("C09")) else "cut"
+
+
+def compare(c, flavor, iout, mout, cut, hist):
+    """model vs code for one run (None: they agree). A `stop` that lands INSIDE a macrostep, or in the instant of a `send`:
+      * sync, variant rest-runs: the whole run is compared — the model lets the rest of the macrostep run, like the code;
+      * async: the whole run is compared; when it differs the comparison falls back to everything up to and including the `stop`
+        record: stop() awaits `cancel_all()` and then CANCELS the run loop at its suspension point, so whether the rest of the
+        macrostep runs (the slow action ends in that very instant and there is something to await), is cut short at a later
+        suspension point or does not run at all is decided inside asyncio — the model always lets it run (monitored only);
+      * a `stop` in the very instant of a `send`, not in flight (async): the stop() task's first step comes right behind the run
+        loop's turn, AHEAD of the sleepers due at that instant and of the tasks the macrostep created; the model handles the
+        instant's wake-ups first — when the whole run differs, everything BEFORE that instant is compared;
+      * variant cut (the library repaired): up to the stop, both engines."""
+    t_stop = next((a[0] for a in c["agenda"] if a[1] == "stop"), None)
+    in_flight = bool(iout.get("stop_in_flight"))
+    same_instant = t_stop is not None and any(a[1] == "send" and a[0] == t_stop for a in c["agenda"])
+    if t_stop is None or not (in_flight or (same_instant and flavor == "async")):
+        mrec = [r for _t, r in mout["log"]]
+        if "stop" in mrec and any(not r.startswith(("send:", "obs:", "svc-")) for r in mrec[mrec.index("stop") + 1:]):
+            # (the model sees the stop inside a macrostep, the code did not: e.g. the macrostep ended in that instant)
+            hist["stop_inside_a_macrostep_in_the_model_only(compared up to the stop)"] += 1
+            return diff_to_stop(iout, mout)
+        return diff_run(iout, mout, cut)
+    variant = stop_variant()
+    if in_flight:
+        hist[f"stop_inside_a_macrostep[{variant}]"] += 1
+    if variant == "rest-runs" or not in_flight:
+        d = diff_run(iout, mout, cut)
+        if d is None:
+            if in_flight:
+                hist["stop_inside_a_macrostep:whole_run_agrees_with_the_model"] += 1
+            return None
+        if flavor == "sync":
+            return d
+    if not in_flight:
+        hist["stop_in_the_instant_of_a_send(compared up to that instant)"] += 1
+        return diff_run(iout, mout, t_stop - 1)
+    hist["stop_inside_a_macrostep(compared up to the stop)"] += 1
+    return diff_to_stop(iout, mout)
+
+
 # ------------------------------------------------------------------------------------------- generator
 EVENTS = ["E0", "E1", "E2", "R"]
 SERVICES = {
@@ -819,6 +927,10 @@ def gen_machine(rng, opts):
                 t = {"target": rng.choice(names), "actions": [f"t:{nm}:{ev}"]}
                 if rng.random() < 0.2:
                     t["guard"] = rng.choice(["g0", "g1"])
+                if opts.get("stopin") and rng.random() < 0.3:
+                    # a slow action between the exits and the entries (first of its list: the model lets the time of a list
+                    # pass before the list's effects)
+                    t["actions"] = ["async:sleep:100"] + t["actions"]
                 on[ev] = t
         if rng.random() < 0.6:
             on["R"] = {"target": nm, "reenter": True, "actions": [f"t:{nm}:R"]}
@@ -827,9 +939,9 @@ def gen_machine(rng, opts):
             st["after"] = _after_block(rng, "m." + nm, names, nm, opts)
         if rng.random() < opts.get("p_invoke", 0.0):
             st["invoke"] = _invoke_block(rng, nm, names, opts)
-        if opts.get("slow") and rng.random() < 0.15:
+        if opts.get("slow") and rng.random() < opts.get("p_slow_exit", 0.15):
             st["exit"] = ["async:sleep:100"] + st["exit"]
-        if opts.get("slow") and rng.random() < 0.1:
+        if opts.get("slow") and rng.random() < opts.get("p_slow_entry", 0.1):
             # (on the initial state too: `start()` creates the run loop only after the initial entry has settled,
             #  so events arriving while it sleeps inside an entry action just wait in the queue)
             st["entry"] = ["async:sleep:100"] + st["entry"]
@@ -929,13 +1041,15 @@ def gen_par_machine(rng, opts):
             for ev in EVENTS[:3]:
                 if rng.random() < 0.35:
                     on[ev] = {"target": rng.choice(names), "actions": [f"t:{key}:{ev}"]}
+                    if opts.get("stopin") and rng.random() < 0.3:
+                        on[ev]["actions"] = ["async:sleep:100"] + on[ev]["actions"]
             if rng.random() < 0.3:
                 on["R"] = {"target": nm, "reenter": True, "actions": [f"t:{key}:R"]}
             st["on"] = on
             tasks(st, key, names, False)
-            if slow and rng.random() < 0.12:
+            if slow and rng.random() < opts.get("p_slow_exit", 0.12):
                 st["exit"] = ["async:sleep:100"] + st["exit"]
-            if slow and rng.random() < 0.1:
+            if slow and rng.random() < opts.get("p_slow_entry", 0.1):
                 st["entry"] = ["async:sleep:100"] + st["entry"]
             states[nm] = st
         reg = {"initial": names[0], "entry": [f"en:{rn}"], "exit": [f"ex:{rn}"], "states": states, "on": {}}
@@ -1098,7 +1212,16 @@ def gen_agenda(rng, opts):
         if agenda and t <= agenda[-1][0]:
             t = agenda[-1][0] + 1
         agenda.append([t, "send", rng.choice(evs)])
-    if opts.get("stop") and rng.random() < 0.5:
+    if opts.get("stopin"):
+        # `stop()` INSIDE the macrostep in flight: relative to one of the inputs — in its very instant, behind it (the run loop has
+        # just been woken / is inside the `await` of `cancel_by_owner`), strictly inside a slow action that input may have started
+        # (50 ms), in the instant in which a 100 ms / 200 ms slow action it started ends (external inputs go first at equal
+        # times: the interpreter's task is still suspended when stop() sets the status), or right behind that instant; whatever
+        # the agenda held for later is dropped (a stopped interpreter refuses it anyway)
+        k = rng.randrange(len(agenda))
+        t = agenda[k][0] + rng.choice([0, 50, 100, 100, 100, 101, 200, 200])
+        agenda = [a for a in agenda if a[0] <= t] + [[t, "stop"]]
+    elif opts.get("stop") and rng.random() < 0.5:
         t = agenda[-1][0] + rng.choice([1, 50, 100, 199, 250])
         agenda.append([t, "stop"])
     # the run goes on for TAIL ms after the last input; records are compared up to CUT ms before the end
@@ -1127,6 +1250,14 @@ PROFILES = {
     "isvc": {"p_after": 0.6, "p_invoke": 0.8, "alts": False, "instant": True},                     # C09: + services
     "isvcslow": {"p_after": 0.6, "p_invoke": 0.8, "slow": True, "alts": False, "instant": True},
     "isvcstop": {"p_after": 0.5, "p_invoke": 0.8, "alts": False, "instant": True, "stop": True, "final": True},
+    # `stop()` INSIDE the macrostep in flight (`stopin`: see `gen_agenda`): slow exit / transition / entry actions are frequent,
+    # the stop lands inside one of them, in the instant in which it ends, or in the instant of an input
+    "slowstop": {"p_after": 0.8, "slow": True, "alts": False, "stopin": True, "p_slow_exit": 0.35, "p_slow_entry": 0.3},          # C08
+    "inststop2": {"p_after": 0.9, "slow": True, "alts": False, "instant": True, "stopin": True, "p_slow_exit": 0.35, "p_slow_entry": 0.3},
+    "partstop2": {"p_after": 0.9, "slow": True, "instant": True, "par": True, "stopin": True, "p_slow_exit": 0.3, "p_slow_entry": 0.25},
+    "svcslowstop": {"p_after": 0.4, "p_invoke": 0.7, "plain": True, "slow": True, "alts": False, "stopin": True, "p_slow_exit": 0.35, "p_slow_entry": 0.3},   # C09
+    "isvcstop2": {"p_after": 0.6, "p_invoke": 0.8, "slow": True, "alts": False, "instant": True, "stopin": True, "p_slow_exit": 0.35, "p_slow_entry": 0.3},
+    "parstop2": {"p_after": 0.6, "p_invoke": 0.8, "slow": True, "instant": True, "par": True, "stopin": True, "p_slow_exit": 0.3, "p_slow_entry": 0.25},
     # composite states with their OWN timers / services, entered in every way (`gen_deep_machine`)
     "deep": {"p_after": 0.8, "alts": False, "deep": True},
     "deepslow": {"p_after": 0.8, "alts": False, "deep": True, "slow": True},
@@ -1209,7 +1340,11 @@ class Timeline:
     markers are undone — an exited state stays in its activation (which is flagged `rollbacks`), an
     entered one never had that activation."""
 
-    def __init__(self, case, log, in_flight=False):
+    def __init__(self, case, log, in_flight=False, stop_in_flight=False):
+        # `stop_in_flight`: the `stop` record lies INSIDE a macrostep (stop() was called while the interpreter's own task /
+        # thread was suspended in it). That macrostep is not over at that record: it goes on (and ends with its `#t:`) or is cut
+        # short there (async: the run loop is cancelled at its suspension point) — unfinished, not undone: what it has exited
+        # so far is exited, what it has entered is active. (A `stop` BETWEEN macrosteps still closes a failed transition.)
         self.info = static_info(case)
         self.key2sid = {v["key"]: sid for sid, v in self.info.items() if v["key"]}
         self.log = log
@@ -1237,9 +1372,12 @@ class Timeline:
             pending.clear()
             arms.clear()
         last_t = 0
+        cut = False
         for pos, (t, r) in enumerate(log):
             if r.startswith("#t:"):
                 settle(True, t)
+            elif r == "stop" and stop_in_flight:
+                cut = True
             elif r.startswith("#recv:") or r == "stop":
                 settle(False, last_t)
             elif r.startswith("arm:"):
@@ -1265,7 +1403,7 @@ class Timeline:
         # the log ends with a transition that has no `#t`: it failed and was rolled back — unless the run simply ended
         # while the interpreter was suspended INSIDE that macrostep (`in_flight`: a slow action): then it is unfinished,
         # not undone, and what it has entered so far is active
-        settle(bool(in_flight), last_t)
+        settle(bool(in_flight) or cut, last_t)
 
     def activation_at(self, sid, pos):
         """index of the activation of `sid` that is current at log position `pos` (None: not active)"""
@@ -1317,7 +1455,7 @@ def _pair_sends(log, typ):
 def monitor_c08(case, out):
     """problems of one implementation run w.r.t. C08; each has kind / detail and the facts a classifier needs"""
     log = out["log"]
-    tl = Timeline(case, log, out.get("in_flight"))
+    tl = Timeline(case, log, out.get("in_flight"), out.get("stop_in_flight"))
     gv = case.get("guards", {})
     probs = []
     slow = has_slow(case)
@@ -1356,7 +1494,9 @@ def monitor_c08(case, out):
                     probs.append({"kind": "after-wrong-owner", "detail": f"{mk} for event of {sid}", **base})
                     continue
                 if stop_pos is not None and p > stop_pos:
-                    probs.append({"kind": "after-fired-after-stop", "detail": f"{mk} at t={t_recv}", **base})
+                    # (facts for the classifier: was the expiry TAKEN UP before stop() was called, inside a macrostep in flight?)
+                    probs.append({"kind": "after-fired-after-stop", "detail": f"{mk} at t={t_recv}", **base,
+                                  "received_before_stop": rp < stop_pos, "stop_in_flight": bool(out.get("stop_in_flight"))})
                 if act_recv is None:
                     probs.append({"kind": "after-fired-while-inactive", "detail": f"{mk} at t={t_recv}: {sid} not active", **base})
                     continue
@@ -1417,19 +1557,34 @@ def monitor_c08(case, out):
             probs.append({"kind": "task-outlives-owner", "detail": f"t={t}: live tasks owned by inactive state(s) {owners}", "owners": owners, "t": t,
                           "orphan_owners": sorted({o[2] for o in tl.orphan_arms})})
     if out.get("alive_after_stop"):
-        probs.append({"kind": "task-alive-after-stop", "detail": f"{out['alive_after_stop']} task(s) alive after stop()"})
+        probs.append({"kind": "task-alive-after-stop", "detail": f"{out['alive_after_stop']} task(s) alive after stop()", **_stop_facts(out)})
     return probs
+
+
+def _stop_facts(out):
+    """facts about an agenda `stop` for the classifiers: did it land inside a macrostep in flight, what was armed / invoked
+    on the stopped interpreter (`late`), how many tasks were alive after it that were NOT created on the stopped interpreter"""
+    late = out.get("late") or []
+    return {"stop_in_flight": bool(out.get("stop_in_flight")), "created_on_stopped_interpreter": late,
+            "alive_not_created_on_stopped_interpreter": max(0, int(out.get("alive_after_stop") or 0) - len(late))}
 
 
 def monitor_c09(case, out):
     log = out["log"]
-    tl = Timeline(case, log, out.get("in_flight"))
+    tl = Timeline(case, log, out.get("in_flight"), out.get("stop_in_flight"))
     probs = []
     inv_owner = {}
     for sid, inf in tl.info.items():
         for j, iv in enumerate(inf["invoke"]):
             inv_owner[iv["id"]] = (sid, j, iv)
     stop_pos = next((p for p, (t, r) in enumerate(log) if r == "stop"), None)
+    # the macrostep that was IN FLIGHT when stop() was called: position / time of its `#recv` (None: stop() came between
+    # macrosteps, or during start()). The async engine cancels the run loop at its next suspension point, so that macrostep may
+    # be CUT SHORT: it may have begun to exit states without a trace (`cancel_by_owner` precedes the exit actions, a slow exit
+    # action delays the `ex:` marker) and the handler actions of the event it was processing may never run.
+    cut_recv = None
+    if stop_pos is not None and out.get("stop_in_flight"):
+        cut_recv = next((p for p in range(stop_pos, -1, -1) if log[p][1].startswith("#recv:")), None)
     dead = dead_pos(case, log, tl.info)
     starts = collections.defaultdict(list)
     for pos, (t, r) in enumerate(log):
@@ -1446,7 +1601,7 @@ def monitor_c09(case, out):
             if per_act[k] == 2:
                 probs.append({"kind": "service-started-twice", "detail": f"{iid}: two starts in activation #{k} of {sid}", "id": iid})
             if stop_pos is not None and pos > stop_pos:
-                probs.append({"kind": "service-started-after-stop", "detail": f"{iid} at t={log[pos][0]}", "id": iid})
+                probs.append({"kind": "service-started-after-stop", "detail": f"{iid} at t={log[pos][0]}", "id": iid, "owner": sid, **_stop_facts(out)})
         # exactly one start for an activation that outlives the instant of its entry (the async engine
         # starts the service task at the next suspension point of the run loop)
         for k, A in enumerate(tl.acts.get(sid, [])):
@@ -1457,12 +1612,23 @@ def monitor_c09(case, out):
                 rp = next((p for p in range(xp, -1, -1) if log[p][1].startswith("#recv:")), None)
                 xbegin = log[rp][0] if rp is not None else xt
             lived = (xp is None or xbegin > et) and (stop_pos is None or log[stop_pos][0] > et) and et < case["horizon"] - CUT
+            # REFINED for a stop() inside a macrostep (C09: "... and stop()"; C14: "at every point of a run including
+            # mid-macrostep"): the macrostep that was cut short counts as the begin of the exit of every state it had not yet
+            # visibly left — an activation entered in the very instant in which that macrostep began did not outlive that instant
+            if xp is None and cut_recv is not None and log[cut_recv][0] <= et and ep < cut_recv:
+                lived = False
             sync_flavor = out.get("flavor") == "sync"
             if (lived or sync_flavor) and per_act[k] == 0 and case["logic"]["services"].get(iv["src"]) is not None:
                 if out.get("S") == "HANG" or any(r.startswith("#aerr") for _t, r in log):
                     continue
                 if out.get("in_flight") and ep > max([p for p, (_t, r) in enumerate(log) if r.startswith("#recv:")] or [-1]):
                     continue            # entered by the macrostep that was still in flight when the run ended: its schedule step had not come yet
+                if stop_pos is not None and out.get("stop_in_flight") and ep > (cut_recv if cut_recv is not None else -1):
+                    # REFINED for a stop() inside a macrostep: entered by the macrostep (or the start()) that was in flight when stop()
+                    # was called. Its schedule step had not come when the stop landed (sync: a composite state's tasks are scheduled
+                    # behind its nested descent) — and on a stopped interpreter it must not come: a service that did start there is
+                    # `service-started-after-stop`
+                    continue
                 probs.append({"kind": "service-not-started", "detail": f"{iid}: activation #{k} of {sid} (t={et}) never started its service", "id": iid})
         # completions. Every service call has a serial number that travels with its result (`svc_ends`: where the
         # call ended; `datalog`: which serial each handler run saw, in the order of the handler markers).
@@ -1501,6 +1667,12 @@ def monitor_c09(case, out):
             recvs_before = sum(1 for p in range(endpos) if log[p][1] == "#recv:" + typ)
             alone = sends_before <= recvs_before
             if current:
+                # REFINED for a stop() inside a macrostep: a completion event whose macrostep was IN FLIGHT when stop() was called
+                # (it was cut short, or — with the repair — runs no further action) is not a completion that was "not handled": the
+                # interpreter was stopped while handling it ("exactly one completion event is processed" is about an interpreter
+                # that keeps running; C14 lets stop() land mid-macrostep)
+                if rp is not None and rp == cut_recv and len(mine) == 0:
+                    continue
                 if declared and (len(mine) > 1 or (len(mine) == 0 and alone)) and rp is not None:
                     # (with several results of one activation queued at once only the first is "next")
                     probs.append({"kind": "completion-not-handled-once", "id": iid,
@@ -1552,7 +1724,7 @@ def monitor_c09(case, out):
         if owners:
             probs.append({"kind": "task-outlives-owner", "detail": f"t={t}: live tasks owned by inactive state(s) {owners}", "owners": owners, "t": t})
     if out.get("alive_after_stop"):
-        probs.append({"kind": "task-alive-after-stop", "detail": f"{out['alive_after_stop']} task(s) alive after stop()"})
+        probs.append({"kind": "task-alive-after-stop", "detail": f"{out['alive_after_stop']} task(s) alive after stop()", **_stop_facts(out)})
     return probs
 
 
@@ -1594,7 +1766,29 @@ def cls_stale_done(prob, case, flavor):
     return prob.get("kind") == "stale-result-handled" and prob.get("produced_in_activation") != prob.get("received_in_activation")
 
 
+def cls_stop_inside_macrostep(prob, case, flavor):
+    """F73 / F74: stop() was called while a macrostep was in flight (the interpreter's own task / thread suspended in a slow action
+    or in the `await` of `cancel_by_owner`, or start() still inside the initial entry); the REST of that macrostep ran on the
+    stopped interpreter: its actions, its entries, and `_schedule_state_tasks` armed timers / started services that nothing cancels.
+    Only problems that this explains: the stop was in flight AND
+      * task-alive-after-stop: every task alive after stop() was created on the stopped interpreter;
+      * service-started-after-stop: the service belongs to a `_schedule_state_tasks` call made on the stopped interpreter;
+      * after-fired-after-stop: the expiry had been taken up BEFORE stop() — the marker is an action of the macrostep in flight."""
+    if not prob.get("stop_in_flight"):
+        return False
+    k = prob.get("kind")
+    late = prob.get("created_on_stopped_interpreter") or []
+    if k == "task-alive-after-stop":
+        return bool(late) and prob.get("alive_not_created_on_stopped_interpreter") == 0
+    if k == "service-started-after-stop":
+        return any(x[0] == "service" and x[2] == prob.get("id") and x[1] == prob.get("owner") for x in late)
+    if k == "after-fired-after-stop":
+        return prob.get("received_before_stop") is True
+    return False
+
+
 CLASSIFIERS = {
+    "stop-inside-macrostep-rest-runs": cls_stop_inside_macrostep,
     "stale-queued-after-event": cls_stale_after,
     "after-alternatives-fire-once-each": cls_after_alternatives,
     "rollback-leaves-or-duplicates-tasks": cls_rollback_tasks,
@@ -1713,6 +1907,7 @@ def explore(prop, flavor, cases, monitors):
     nontrivial = 0
     for c, (ist, iout), (mst, mout) in zip(cases, ires, mres):
         small = {k: c[k] for k in ("id", "machine", "guards", "logic", "agenda", "horizon")}
+        small["events"] = []         # (`./check Cnn --replay` first hands the case to the generic runner, which wants the key)
         if ist == "hang" and not (mst == "ok" and mout.get("S") == "HANG"):
             # a long (but finite) run that missed the watchdog on a loaded machine: once more, alone, with more time
             ist, iout = run_impl_many(flavor, [c], timeout=40, nproc=1)[0]
@@ -1727,14 +1922,8 @@ def explore(prop, flavor, cases, monitors):
         if ist != "ok" or mst != "ok":
             ties.append({"case": small, "flavor": flavor, "diff": {"impl": [ist, iout if ist != "ok" else ""], "model": [mst, mout if mst != "ok" else ""]}})
             continue
-        # `stop()` landing while the interpreter is suspended inside a slow action cancels the macrostep in the
-        # middle; the model has no such abort (it finishes the macrostep): those runs are monitored, not compared
-        mrec = [r for _t, r in mout["log"]]
-        if "stop" in mrec and any(not r.startswith(("send:", "obs:", "svc-")) for r in mrec[mrec.index("stop") + 1:]):
-            hist["stop_inside_a_slow_action(monitored only)"] += 1
-            d = None
-        else:
-            d = diff_run(iout, mout, c["horizon"] - CUT)
+        # (`stop()` landing inside a macrostep: see `compare`)
+        d = compare(c, flavor, iout, mout, c["horizon"] - CUT, hist)
         if d is not None and not mout.get("clean", True):
             # a rollback re-arms the restored states in SET-ITERATION order (unspecified): after the first rollback
             # the order of equal deadlines is not determined by the inputs — compare up to that point only
@@ -1798,7 +1987,9 @@ def c08_sync(tier, seed):
     k = SIZES[tier]
     plan = [("after1", 100), ("after", 100), ("slow", 150), ("slowalts", 80), ("ties", 100), ("stop", 80), ("rollback", 60),
             # composite states that own timers, entered through deep targets / history children (`gen_deep_machine`)
-            ("deep", 120), ("deepslow", 60)]
+            ("deep", 120), ("deepslow", 60),
+            # `stop()` from another thread while a blocking action of the macrostep in flight runs / in the instant in which it ends
+            ("slowstop", 100), ("inststop2", 60), ("partstop2", 60)]
     tot = _explore_plan("C08", "sync", plan, k, seed, [monitor_c08])
     return _result("SyncInterpreter with timer threads on a deterministic virtual-clock shim vs runtime model: profiles " + ",".join(p for p, _ in plan), *tot)
 
@@ -1807,7 +1998,9 @@ def c09_sync(tier, seed):
     k = SIZES9[tier]
     plan = [("svc", 200), ("svcslow", 200), ("svcstop", 100),
             # composite states that own services, entered through deep targets / history children (`gen_deep_machine`)
-            ("svcdeep", 150), ("svcdeepslow", 80)]
+            ("svcdeep", 150), ("svcdeepslow", 80),
+            # `stop()` from another thread while a blocking action of the macrostep in flight runs / in the instant in which it ends
+            ("svcslowstop", 100), ("isvcstop2", 60), ("parstop2", 60)]
     tot = _explore_plan("C09", "sync", plan, k, seed, [monitor_c09, monitor_c08])
     return _result("SyncInterpreter with invoked plain services (run inside the entry) vs runtime model: profiles " + ",".join(p for p, _ in plan), *tot)
 
@@ -1819,7 +2012,9 @@ def c08_async(tier, seed):
             # the same-instant family (everything on one 100 ms grid; `part*`: independent parallel regions)
             ("inst", 100), ("instalts", 60), ("inststop", 60), ("part", 120), ("partslow", 120), ("partstop", 60),
             # composite states that own timers, entered through deep targets / history children (`gen_deep_machine`)
-            ("deep", 120), ("deepslow", 80)]
+            ("deep", 120), ("deepslow", 80),
+            # `stop()` INSIDE the macrostep in flight: inside a slow action, in the instant in which it ends, in the instant of an input
+            ("slowstop", 120), ("inststop2", 80), ("partstop2", 80)]
     tot = _explore_plan("C08", "async", plan, k, seed, [monitor_c08])
     return _result("async Interpreter on a virtual clock vs runtime model: profiles " + ",".join(p for p, _ in plan), *tot)
 
@@ -1837,7 +2032,9 @@ def c09_async(tier, seed):
             # created service tasks coincide (`par*`: on independent parallel regions)
             ("isvc", 80), ("isvcslow", 80), ("isvcstop", 40), ("par", 120), ("parslow", 120), ("parstop", 60),
             # composite states that own services, entered through deep targets / history children (`gen_deep_machine`)
-            ("svcdeep", 120), ("svcdeepslow", 80)]
+            ("svcdeep", 120), ("svcdeepslow", 80),
+            # `stop()` INSIDE the macrostep in flight: inside a slow action, in the instant in which it ends, in the instant of an input
+            ("svcslowstop", 120), ("isvcstop2", 80), ("parstop2", 80)]
     tot = _explore_plan("C09", "async", plan, k, seed, [monitor_c09, monitor_c08], PINNED9)
     return _result("async Interpreter with invoked services (coroutines with completion times, plain callables, return/raise) vs runtime model: profiles "
                    + ",".join(p for p, _ in plan), *tot)
@@ -1961,9 +2158,8 @@ def instants(tier, kinds):
                         if "STOP" in es[:-1]:
                             continue
                         agenda = [[t, "stop"] if e == "STOP" else [t, "send", e] for t, e in zip(times, es)]
-                        # (a `stop` in the instant in which a slow action ends races with the macrostep in flight: not this family)
-                        if any(e == "STOP" for e in es) and ("X" in es or "Xs" in (ka, kb)):
-                            continue
+                        # (a `stop` inside a slow action / in the instant in which it ends lands INSIDE the macrostep in flight:
+                        #  part of this family since F72 — see `compare` for what is compared with the model there)
                         horizon = (times[-1] if times else 0) + 1000 + 37      # off the grid: nothing happens at the end of the run
                         cases.append({"id": f"inst-{ka}-{kb}-{len(cases)}", "machine": m, "guards": {},
                                       "logic": {"delays": dict(DELAYS), "services": copy.deepcopy(INST_SERVICES)},
@@ -2104,10 +2300,11 @@ def _fixed_check(cases, flavor, cut):
     nontrivial = 0
     for c, (ist, iout), (mst, mout) in zip(cases, ires, mres):
         small = {k: c[k] for k in ("id", "machine", "guards", "logic", "agenda", "horizon")}
+        small["events"] = []         # (`./check Cnn --replay` first hands the case to the generic runner, which wants the key)
         if ist != "ok" or mst != "ok":
             ties.append({"case": small, "flavor": flavor, "diff": {"impl": [ist, iout if ist != "ok" else ""], "model": [mst, mout if mst != "ok" else ""]}})
             continue
-        d = diff_run(iout, mout, c["horizon"] - cut)
+        d = compare(c, flavor, iout, mout, c["horizon"] - cut, hist)
         if d is not None:
             ties.append({"case": small, "flavor": flavor, "diff": d})
         recs = [r for _t, r in iout["log"]]
